@@ -218,6 +218,10 @@ theorem workDone_rinv (sc : Script) (s : State) (hi : RInv none s) : RInv none (
   simp only [cnt, wcnt, cp, List.countP_nil]
   omega
 
+theorem ringDone_rinv (sc : Script) (cq : List Nat) (s : State) (hi : RInv none s) : RInv none (ringDone sc cq s) := by
+  unfold ringDone
+  exact workDoneLoop_rinv _ _ _ ((ringTake_rle s cq).inv hi)
+
 theorem asyncIoLoop_rinv (sc : Script) (fuel : Nat) (s : State) (hi : RInv none s) : RInv none (asyncIoLoop sc fuel s) := by
   induction fuel generalizing s with
   | zero => exact hi
@@ -278,6 +282,9 @@ theorem dispatchLoop_rinv (sc : Script) (fuel : Nat) (s : State) (n : Nat) (sg :
             · apply pollIo_rinv; exact h0 _
             · apply udpIo_rinv; exact h0 _
             · exact h0 _
+      · split
+        · apply ih; apply ringDone_rinv; exact h0 _
+        · apply ih; exact h0 _
 
 theorem pollLoop_rinv (sc : Script) (fuel : Nat) (s : State) (c : PollCtl) (hi : RInv none s) :
     RInv none (pollLoop sc fuel s c) := by
